@@ -59,21 +59,32 @@ func run(c *lib.Ctx) error {
 	var mu sync.Mutex
 	var dirHist [][]storex.Event
 	nb := 0
-	lib.Parallel(len(lines), 8, func(i int) {
-		var beh []storex.Step
-		if err := json.Unmarshal([]byte(lines[i]), &beh); err != nil {
-			panic(fmt.Sprintf("bad behaviour from TLC: %v", err))
+	const W = 8
+	lib.Parallel(W, W, func(w int) {
+		rs, err := storex.OpenReusable(storex.DBPath(scratch, w))
+		if err != nil {
+			panic(fmt.Sprintf("open store: %v", err))
 		}
-		evs, ok := replayBehaviour(c, storex.DBPath(scratch, i), beh, true)
-		mu.Lock()
-		nb++
-		if i < 2 {
-			c.Sample(beh)
+		defer rs.Close()
+		for i := w; i < len(lines); i += W {
+			var beh []storex.Step
+			if err := json.Unmarshal([]byte(lines[i]), &beh); err != nil {
+				panic(fmt.Sprintf("bad behaviour from TLC: %v", err))
+			}
+			if err := rs.Reset(); err != nil {
+				panic(fmt.Sprintf("reset store: %v", err))
+			}
+			evs, ok := replayBehaviour(c, rs.Store, beh)
+			mu.Lock()
+			nb++
+			if i < 2 {
+				c.Sample(beh)
+			}
+			if ok && len(beh) > 0 && beh[len(beh)-1].O.Op == "Dirs" {
+				dirHist = append(dirHist, evs)
+			}
+			mu.Unlock()
 		}
-		if ok && len(beh) > 0 && beh[len(beh)-1].O.Op == "Dirs" {
-			dirHist = append(dirHist, evs)
-		}
-		mu.Unlock()
 	})
 	c.AddTraces(nb)
 	c.Set("exhaustive", true)
@@ -122,7 +133,7 @@ func run(c *lib.Ctx) error {
 		return err
 	}
 	c.AddTraces(nh)
-	c.Assume("TLC trusted; directory scores compared in milli-units with a drift bound of 2*visits+2 (7-significant-digit text rounding in the store vs truncation in the model); negative sequence arguments Unspecified; G replays open the same store code over bbolt with NoSync (durability is C25)")
+	c.Assume("TLC trusted; directory scores compared in milli-units with a drift bound of 2*visits+2 (7-significant-digit text rounding in the store vs truncation in the model); negative sequence arguments Unspecified; G replays run the same store code over a bbolt file opened with NoSync and emptied (buckets dropped and re-initialised) between behaviours (durability is C25)")
 	return nil
 }
 
@@ -153,19 +164,7 @@ func judge(c *lib.Ctx, dir, name string, hist [][]storex.Event) error {
 
 // replayBehaviour runs a model behaviour on a fresh real store, comparing each result with the
 // prescribed one. It returns the recorded events (prefixed by Reset).
-func replayBehaviour(c *lib.Ctx, path string, beh []storex.Step, nosync bool) ([]storex.Event, bool) {
-	var st store.DBStore
-	var err error
-	if nosync {
-		st, err = storex.OpenNoSync(path)
-	} else {
-		st, err = store.NewStore(path)
-	}
-	if err != nil {
-		panic(fmt.Sprintf("open store: %v", err))
-	}
-	defer os.Remove(path)
-	defer st.Close()
+func replayBehaviour(c *lib.Ctx, st store.DBStore, beh []storex.Step) ([]storex.Event, bool) {
 	evs := []storex.Event{storex.ResetEvent()}
 	ops := ""
 	for _, s := range beh {
@@ -213,7 +212,12 @@ func replay(c *lib.Ctx, dir string) error {
 	defer os.RemoveAll(scratch)
 	var beh []storex.Step
 	if json.Unmarshal(f.Case, &beh) == nil && len(beh) > 0 && beh[0].O.Op != "Reset" && beh[0].O.Op != "" {
-		replayBehaviour(c, storex.DBPath(scratch, 0), beh, true)
+		st, err := storex.OpenNoSync(storex.DBPath(scratch, 0))
+		if err != nil {
+			return lib.Infra("%v", err)
+		}
+		defer st.Close()
+		replayBehaviour(c, st, beh)
 		return nil
 	}
 	var evs []storex.Event
